@@ -9,7 +9,20 @@ package main
 //   b1      random byte strings of length 0..64
 //   b<k>    k >= 2: one VALID register (version 1 from random histories, version 0 from the
 //           repository's test fixtures and from a small v0 encoder that is checked against the real
-//           decoder) with its structured mutations (atree-level fields) and byte-level mutations.
+//           decoder) with its structured mutations (atree-level fields, CBOR heads, item-level edits of
+//           decode_items.go: type changes, counts with payload, swaps, cuts) and byte-level mutations.
+//           The version-1 corpus includes random forests of inlined arrays / maps / composite-typed
+//           (compact) maps up to four levels deep (c19BuildForests).
+//   after the per-register batches (same tag scheme b<k>, see kFocus / kHdr / kSpine in cmdDecode):
+//   focus   one batch per register with an inlined-extra-data section: the COMPLETE item-level stream on
+//           the root extra data and the section (every item retyped to every form the callbacks decode,
+//           major types, counts/lengths up and down with and without payload, swaps, cuts at every byte);
+//   hdr     one batch: fixed-layout headers of metadata slabs of every kind and both versions: child count
+//           in {0,1,2,n-1,n,n+1,2n,255,256,0x7fff,0x8000,0xffff} x payload {as is, exactly that many
+//           headers, one byte short, one header short, one byte long, one header long, none}, header fields;
+//   spine   one batch: the counted fields of data slabs of every kind (element array, digests, elements).
+// A panic of the implementation while the corpus is built (DecodeSlab on a register that is meant to be
+// valid) does not end the run: the register is pinned into the corpus and reported by its own batch.
 // For every input, inside recover(): IsRootOfAnObject, HasPointers, HasSizeLimit, DecodeSlab and, on
 // success, ByteSize, ChildStorables (recursively), SlabID, EncodeSlab.  Observables: panic, wall
 // time, allocated bytes (sampled on one goroutine).  Accepted inputs also go through
@@ -19,7 +32,7 @@ package main
 // DecodeSlab, the header queries and ByteSize/ChildStorables only.  trace.txt carries the header queries
 // and the metadata-slab decodes for the Coq engine `decode` (DecodeTrace.v).
 //
-// Flags: default = quick tier (500 000 inputs, ~5 s); -n 10000000 -mode thorough = thorough tier (~1 min);
+// Flags: default = quick tier (~700 000 inputs, ~8 s); -n 10000000 -mode thorough = thorough tier (~15 M inputs, ~2 min);
 // -only b<k> replays one batch.
 
 import (
@@ -276,7 +289,8 @@ type c19Reg struct {
 	id   atree.SlabID
 	data []byte
 	segs map[atree.SlabID][]byte // the ledger the register lives in (read-only), nil if synthetic
-	src  string                  // v1 | v0fix | v0enc | v0conv
+	src  string                  // v1 | v1inl | v0fix | v0enc | v0conv
+	pin  bool                    // always selected (a register of the corpus on which DecodeSlab panicked)
 }
 
 // c19SlabKind names the slab kind announced by the 2-byte head.
@@ -324,6 +338,19 @@ func c19SlabKind(data []byte) string {
 
 func c19Decode(id atree.SlabID, data []byte) (atree.Slab, error) {
 	return atree.DecodeSlab(id, data, decMode, decodeStorableSafe, c19DecodeTypeInfo)
+}
+
+// c19DecodeNoPanic is c19Decode for the set-up code (corpus construction, probes): a panic of the
+// implementation there must not end the run; it is returned and the register is pinned into the corpus, so
+// that its own batch reports it as a violation with a replayable tag.
+func c19DecodeNoPanic(id atree.SlabID, data []byte) (slab atree.Slab, err error, panicked string) {
+	defer func() {
+		if r := recover(); r != nil {
+			slab, err, panicked = nil, errors.New("panic"), fmt.Sprint(r)
+		}
+	}()
+	slab, err = c19Decode(id, data)
+	return slab, err, ""
 }
 
 // c19V0Fixtures: version-0 registers copied from the repository's own tests
@@ -572,8 +599,8 @@ func c19V0FromV1(id atree.SlabID, data []byte) []byte {
 	if len(data) < 2 || data[0]>>4 != 1 {
 		return nil
 	}
-	slab, err := c19Decode(id, data)
-	if err != nil {
+	slab, err, _ := c19DecodeNoPanic(id, data)
+	if err != nil || slab == nil {
 		return nil
 	}
 	root := data[1]&0x80 != 0
@@ -858,7 +885,7 @@ func (c *c19Corpus) addLedger(segs map[atree.SlabID][]byte, src string, seen map
 	}
 }
 
-func c19BuildCorpus(seed uint64, worlds int, rep *Report) *c19Corpus {
+func c19BuildCorpus(seed uint64, worlds, forests int, rep *Report) *c19Corpus {
 	c := &c19Corpus{events: map[string]int{}}
 	seen := map[string]bool{}
 	rng := NewRng(seed ^ 0xC19)
@@ -974,6 +1001,9 @@ func c19BuildCorpus(seed uint64, worlds int, rep *Report) *c19Corpus {
 		c.addLedger(base.Segs, "v1", seen)
 	}()
 
+	// (2b) random forests of inlined arrays / maps / composite-typed (compact) maps, several levels deep
+	c19BuildForests(c, rng.Fork(0xF0), forests, seen)
+
 	// (3) version 0: fixtures of the repository's tests
 	fixID := mkID(0x0102030405060708, 1)
 	for _, h := range c19V0Fixtures {
@@ -982,12 +1012,16 @@ func c19BuildCorpus(seed uint64, worlds int, rep *Report) *c19Corpus {
 			continue
 		}
 		seen[string(d)] = true
-		if _, err := c19Decode(fixID, d); err != nil {
+		_, err, pan := c19DecodeNoPanic(fixID, d)
+		if pan == "" && err != nil {
 			c.events["v0_fixture_rejected"]++
 			rep.Sample(fmt.Sprintf("v0 fixture rejected: %x: %v", d, err))
 			continue
 		}
-		c.regs = append(c.regs, c19Reg{id: fixID, data: d, src: "v0fix"})
+		if pan != "" {
+			c.events["corpus_decode_panic"]++
+		}
+		c.regs = append(c.regs, c19Reg{id: fixID, data: d, src: "v0fix", pin: pan != ""})
 	}
 
 	// (4) version 0: own encoder (must be accepted by the real decoder)
@@ -1019,12 +1053,16 @@ func c19BuildCorpus(seed uint64, worlds int, rep *Report) *c19Corpus {
 			continue
 		}
 		seen[string(d)] = true
-		if _, err := c19Decode(fixID, d); err != nil {
+		_, err, pan := c19DecodeNoPanic(fixID, d)
+		if pan == "" && err != nil {
 			c.events["v0_encoder_rejected"]++
 			rep.Sample(fmt.Sprintf("v0 encoder output rejected: %x: %v", d, err))
 			continue
 		}
-		c.regs = append(c.regs, c19Reg{id: fixID, data: d, src: "v0enc"})
+		if pan != "" {
+			c.events["corpus_decode_panic"]++
+		}
+		c.regs = append(c.regs, c19Reg{id: fixID, data: d, src: "v0enc", pin: pan != ""})
 	}
 
 	// (5) version 0: conversions of version-1 registers of the corpus
@@ -1032,7 +1070,7 @@ func c19BuildCorpus(seed uint64, worlds int, rep *Report) *c19Corpus {
 	conv := 0
 	for i := 0; i < nv1 && conv < 400; i++ {
 		r := c.regs[i]
-		if r.src != "v1" || i%3 != 0 {
+		if (r.src != "v1" && r.src != "v1inl") || i%3 != 0 {
 			continue
 		}
 		d := c19V0FromV1(r.id, r.data)
@@ -1040,13 +1078,17 @@ func c19BuildCorpus(seed uint64, worlds int, rep *Report) *c19Corpus {
 			continue
 		}
 		seen[string(d)] = true
-		if _, err := c19Decode(r.id, d); err != nil {
+		_, err, pan := c19DecodeNoPanic(r.id, d)
+		if pan == "" && err != nil {
 			c.events["v0_conversion_rejected"]++
 			rep.Sample(fmt.Sprintf("v0 conversion rejected: %x: %v", d, err))
 			continue
 		}
+		if pan != "" {
+			c.events["corpus_decode_panic"]++
+		}
 		conv++
-		c.regs = append(c.regs, c19Reg{id: r.id, data: d, src: "v0conv"})
+		c.regs = append(c.regs, c19Reg{id: r.id, data: d, src: "v0conv", pin: pan != ""})
 	}
 	return c
 }
@@ -1058,7 +1100,12 @@ func c19Select(regs []c19Reg, max int) []c19Reg {
 	}
 	byKind := map[string][]c19Reg{}
 	var kinds []string
+	var out []c19Reg
 	for _, r := range regs {
+		if r.pin {
+			out = append(out, r)
+			continue
+		}
 		k := r.src + "/" + c19SlabKind(r.data)
 		if _, ok := byKind[k]; !ok {
 			kinds = append(kinds, k)
@@ -1066,7 +1113,6 @@ func c19Select(regs []c19Reg, max int) []c19Reg {
 		byKind[k] = append(byKind[k], r)
 	}
 	sort.Strings(kinds)
-	var out []c19Reg
 	for round := 0; len(out) < max; round++ {
 		added := false
 		for _, k := range kinds {
@@ -1196,8 +1242,16 @@ func c19Structured(reg c19Reg, others []c19Reg, rng *Rng) []c19Input {
 		}
 	}
 
-	// CBOR-level fields
-	for _, it := range lay.items {
+	// CBOR-level fields, then item-level edits (type changes, counts with payload, swaps, cuts)
+	c19CBORFieldEdits(d, lay.items, add)
+	c19ItemEdits(d, lay.items, 0, len(d)+1, add)
+	c19StructuredTail(d, lay, others, rng, add)
+	return out
+}
+
+// c19CBORFieldEdits lists the edits of the heads of the given CBOR items of a valid register.
+func c19CBORFieldEdits(d []byte, items []c19Item, add func(kind string, b []byte)) {
+	for _, it := range items {
 		switch it.major {
 		case 4, 5: // array / map heads
 			n := it.val
@@ -1288,6 +1342,10 @@ func c19Structured(reg c19Reg, others []c19Reg, rng *Rng) []c19Input {
 			add("itemrepl", c19Replace(d, it.off, it.end-it.off, []byte{0x60}))
 		}
 	}
+}
+
+// c19StructuredTail: the register-level edits that follow the item edits in c19Structured.
+func c19StructuredTail(d []byte, lay c19Lay, others []c19Reg, rng *Rng, add func(kind string, b []byte)) {
 	// extra-data index directly after `d8 fa|fb|fc 83`
 	for i := 0; i+4 < len(d); i++ {
 		if d[i] == 0xd8 && d[i+1] >= 0xfa && d[i+1] <= 0xfc && d[i+2] == 0x83 {
@@ -1340,7 +1398,6 @@ func c19Structured(reg c19Reg, others []c19Reg, rng *Rng) []c19Input {
 			add("splice", append(c19Clone(o.data[:2]), d[2:]...))
 		}
 	}
-	return out
 }
 
 // c19ByteLevel produces one byte-level mutation of a valid register.
@@ -1476,8 +1533,8 @@ func c19ProbeEncode(regs []c19Reg) string {
 			continue
 		}
 		d := c19Replace(r.data, i+8, 1, []byte{0x1a, 0x00, 0x10, 0x00, 0x00})
-		slab, err := c19Decode(r.id, d)
-		if err != nil {
+		slab, err, _ := c19DecodeNoPanic(r.id, d)
+		if err != nil || slab == nil {
 			continue
 		}
 		var m0, m1 runtime.MemStats
@@ -1861,7 +1918,7 @@ func (r *c19Runner) process(st *c19Stats, slot *c19Slot, hist int, tag string, s
 	} else {
 		st.events["rejected."+in.kind]++
 		st.errs[res.errClass]++
-		if in.kind == "valid" {
+		if in.kind == "valid" && res.panicked == "" {
 			st.viol = append(st.viol, Violation{hist, tag, step, "C19: harness self-check: a valid register was rejected", "input=" + hex.EncodeToString(d)})
 		}
 	}
@@ -1884,7 +1941,7 @@ func (r *c19Runner) process(st *c19Stats, slot *c19Slot, hist int, tag string, s
 
 func cmdDecode(a Args) {
 	rep := NewReport("C19", a.Seed)
-	rep.Rule = "inputs = all byte strings of length <=2, random strings of length 0..64, and for each valid register (v1 from random nested histories at slab sizes 256/400/1024 with tiny-alphabet digesters, multi-level trees, compact maps, storable slabs; v0 from the repository's test fixtures, a v0 encoder and v1->v0 conversion): structured edits of atree-level fields (version, flag bits, all prefixes, child-header counts, CBOR array/string heads, tags, extra-data indexes, slab ids, item deletion/duplication, splices) and byte-level edits; per input: 3 header queries, DecodeSlab, ByteSize/ChildStorables (recursive)/SlabID/EncodeSlab under recover; oracles: no panic, < 2 s, allocated bytes <= 16 KiB + 256*len (single-goroutine sample, measured before the parallel phase); non-trivial = a batch with at least one accepted and one rejected mutation"
+	rep.Rule = "inputs = all byte strings of length <=2, random strings of length 0..64, and for each valid register (v1 from random nested histories at slab sizes 256/400/1024 with tiny-alphabet digesters, multi-level trees, compact maps, storable slabs; v0 from the repository's test fixtures, a v0 encoder and v1->v0 conversion): structured edits of atree-level fields (version, flag bits, all prefixes, child-header counts, CBOR array/string heads, tags, extra-data indexes, slab ids, item deletion/duplication, splices), item-level edits (an item replaced by an item of every other type incl. every storable / type-info form the callbacks decode, major type changed in place, tag wrapping, counts and lengths up and down with and without the payload, sibling swaps, item tails cut) and byte-level edits; v1 corpus includes random forests of inlined arrays/maps/composite-typed (compact) maps up to 4 levels deep; directed batches: per register with an inlined-extra-data section the complete item-level stream on root extra data + section, one sweep of the fixed-layout headers of metadata slabs of every kind and version (child count 0,1,2,n-1,n,n+1,2n,255,256,0x7fff,0x8000,0xffff x payload as is / exact / one byte or header short or long / none; header fields 0,1,max), one sweep of the counted fields of data slabs; per input: 3 header queries, DecodeSlab, ByteSize/ChildStorables (recursive)/SlabID/EncodeSlab under recover; oracles: no panic, < 2 s, allocated bytes <= 16 KiB + 256*len (single-goroutine sample, measured before the parallel phase); non-trivial = a batch with at least one accepted and one rejected mutation"
 	tr := NewTrace(a.Out + "/trace.txt")
 	defer atree.VerifSetThreshold(1024)
 	t0 := time.Now()
@@ -1895,12 +1952,16 @@ func cmdDecode(a Args) {
 	}
 	thorough := strings.Contains(a.Mode, "thorough") || N >= 2000000
 	worlds := 60
+	forests := 60
 	maxRegs := 600
+	maxFocus := 120
 	if thorough {
 		worlds = 240
+		forests = 400
 		maxRegs = 4000
+		maxFocus = 1500
 	}
-	corpus := c19BuildCorpus(a.Seed, worlds, rep)
+	corpus := c19BuildCorpus(a.Seed, worlds, forests, rep)
 	for k, v := range corpus.events {
 		rep.EventN(k, v)
 	}
@@ -1924,7 +1985,30 @@ func cmdDecode(a Args) {
 		quota = rest / len(regs)
 	}
 
-	nb := 2 + len(regs)
+	// directed batches after the per-register ones:
+	//   focus   one per register with an inlined-extra-data section: complete item-level stream on the section
+	//   hdr     fixed-layout headers of metadata slabs (all kinds, both versions): child count x payload
+	//   spine   counted fields of data slabs (all kinds, both versions): count x payload
+	focus := c19SelectFocus(all, maxFocus)
+	perKind := 3
+	if thorough {
+		perKind = 12
+	}
+	metas := c19SelectByKind(all, perKind, func(r c19Reg, kind string) bool { return strings.Contains(kind, "Meta") })
+	spines := c19SelectByKind(all, perKind, func(r c19Reg, kind string) bool {
+		return strings.Contains(kind, "Data") || strings.Contains(kind, "collisionGroup") || strings.Contains(kind, "storable")
+	})
+	rep.EventN("corpus_focus_registers", len(focus))
+	rep.EventN("corpus_header_registers", len(metas))
+	rep.EventN("corpus_spine_registers", len(spines))
+	for _, r := range focus {
+		rep.Event(fmt.Sprintf("focus.%s.entries%d", c19SlabKind(r.data), c19SectionKinds(r.data, c19Layout(r.data))))
+	}
+	kFocus := 2 + len(regs)
+	kHdr := kFocus + len(focus)
+	kSpine := kHdr + 1
+	nb := kSpine + 1
+	focusCap := 6000 // quick tier: inputs per focus batch (the item-level stream of a section is rarely longer)
 	stats := make([]*c19Stats, nb)
 	workers := runtime.NumCPU()
 	if workers > 32 {
@@ -1998,27 +2082,53 @@ func cmdDecode(a Args) {
 				emit(i, reg, c19Input{"random", b})
 			}
 		default:
-			reg := regs[k-2]
-			step := 0
-			emit(step, reg, c19Input{"valid", reg.data})
-			ss := c19Structured(reg, regs, rng)
-			limit := quota * 6 / 10
-			if !thorough && len(ss) > limit {
-				// deterministic thinning: keep every kind, drop evenly
-				keep := make([]c19Input, 0, limit)
-				stride := float64(len(ss)) / float64(limit)
-				for i := 0; i < limit; i++ {
-					keep = append(keep, ss[int(float64(i)*stride)])
+			switch {
+			case k >= kSpine:
+				step := 0
+				for _, reg := range spines {
+					for _, in := range c19SpineEdits(reg) {
+						emit(step, reg, in)
+						step++
+					}
 				}
-				ss = keep
-			}
-			for _, in := range ss {
-				step++
-				emit(step, reg, in)
-			}
-			for step < quota {
-				step++
-				emit(step, reg, c19ByteLevel(reg.data, regs, rng))
+			case k >= kHdr:
+				step := 0
+				bigDone := map[string]bool{}
+				for _, reg := range metas {
+					kind := c19SlabKind(reg.data)
+					for _, in := range c19HeaderSweep(reg, !bigDone[kind]) {
+						emit(step, reg, in)
+						step++
+					}
+					bigDone[kind] = true
+				}
+			case k >= kFocus:
+				reg := focus[k-kFocus]
+				ss := c19FocusEdits(reg)
+				if !thorough {
+					ss = c19Thin(ss, focusCap, k)
+				}
+				emit(0, reg, c19Input{"valid", reg.data})
+				for i, in := range ss {
+					emit(i+1, reg, in)
+				}
+			default:
+				reg := regs[k-2]
+				step := 0
+				emit(step, reg, c19Input{"valid", reg.data})
+				ss := c19Structured(reg, regs, rng)
+				if !thorough {
+					// deterministic thinning: every kind keeps a share, positions differ from register to register
+					ss = c19Thin(ss, quota*6/10, k)
+				}
+				for _, in := range ss {
+					step++
+					emit(step, reg, in)
+				}
+				for step < quota {
+					step++
+					emit(step, reg, c19ByteLevel(reg.data, regs, rng))
+				}
 			}
 		}
 	}
@@ -2028,6 +2138,7 @@ func cmdDecode(a Args) {
 	maxRatioPermille, maxValidPermille := uint64(0), uint64(0)
 	maxBytes := uint64(0)
 	maxBytesLen := 0
+	maxRatioInput := ""
 	allocViol := 0
 	allocSamples := 0
 	allocBudget := 16000
@@ -2046,21 +2157,29 @@ func cmdDecode(a Args) {
 		rng := mkBatchRng(k)
 		taken := 0
 		total := quota + 1
-		if k == 0 {
+		switch {
+		case k == 0:
 			total = nSmall
-		} else if k == 1 {
+		case k == 1:
 			total = nRandom
+		case k >= kSpine:
+			total = 300 * len(spines)
+		case k >= kHdr:
+			total = 120 * len(metas)
+		case k >= kFocus:
+			total = 3000
 		}
 		stride := 1
 		if total > perBatch {
 			stride = total / perBatch
 		}
 		genBatch(k, rng, func(step int, reg c19Reg, in c19Input) {
-			hot := in.kind == "valid" || in.kind == "childcount" || in.kind == "arrayhead" || in.kind == "strhead" || in.kind == "countsum"
+			hot := in.kind == "valid" || in.kind == "childcount" || in.kind == "arrayhead" || in.kind == "strhead" || in.kind == "countsum" ||
+				in.kind == "hdrcount" || in.kind == "hdrcount+body" || in.kind == "count+body" || in.kind == "count-body" || in.kind == "len+body"
 			if !(hot && step%2 == 0) && step%stride != 0 && in.kind != "valid" {
 				return
 			}
-			if taken >= 3*perBatch {
+			if taken >= 3*perBatch && !(k >= kHdr && taken < 2000) { // the two directed batches span many registers
 				return
 			}
 			taken++
@@ -2078,6 +2197,7 @@ func cmdDecode(a Args) {
 			allocSamples++
 			if pm > maxRatioPermille {
 				maxRatioPermille = pm
+				maxRatioInput = fmt.Sprintf("%s step %d (%s): %d bytes allocated, bound %d, input (%d bytes) %x", tag, step, in.kind, delta, bound, len(in.data), in.data[:min(len(in.data), 160)])
 			}
 			if delta > maxBytes {
 				maxBytes = delta
@@ -2100,7 +2220,7 @@ func cmdDecode(a Args) {
 	var wg sync.WaitGroup
 	next := atomic.Int64{}
 	metaBatches := map[int]bool{}
-	for k := 2; k < nb; k++ {
+	for k := 2; k < kFocus; k++ {
 		kind := c19SlabKind(regs[k-2].data)
 		if strings.Contains(kind, "Meta") && traceRegs < 60 {
 			metaBatches[k] = true
@@ -2230,6 +2350,9 @@ func cmdDecode(a Args) {
 	rep.EventN("time_parallel_phase_ms", int((tA-tB)/time.Millisecond))
 	if encSampled {
 		rep.Samples = append(rep.Samples, encSample) // kept in full: it is the replay input of the observation
+	}
+	if maxRatioInput != "" {
+		rep.Sample("largest allocation relative to the bound: " + maxRatioInput)
 	}
 	rep.Sample(fmt.Sprintf("inputs=%d accepted=%d batches=%d registers=%d/%d workers=%d quota=%d", inputs, accepted, rep.Histories, len(regs), len(all), workers, quota))
 	tr.Close()
